@@ -186,7 +186,8 @@ def _digit_strings(max_len):
 word_chars = st.characters(min_codepoint=33, max_codepoint=0x24F,
                            blacklist_characters=G.LINE_BREAKS + " \t\xa0\x1f",
                            blacklist_categories=("Cc", "Cs", "Zs", "Zl", "Zp"))
-_words = st.one_of(st.sampled_from(["solo", "soloend", "a=b", '"q"', '"solo"', '"phrase_start"', '"lyric"', "N", "S",
+_words = st.one_of(st.sampled_from([w for w in G.WRAPPED if " " not in w and "\t" not in w]),
+                   st.sampled_from(["solo", "soloend", "a=b", '"q"', '"solo"', '"phrase_start"', '"lyric"', "N", "S",
                                     "2", "0=N", "[x]", "{", "}"]),
                    st.text(alphabet=word_chars, min_size=1, max_size=20),
                    st.lists(st.sampled_from(G.UNICODE_ODDITIES + ["a", "Q", '"']), min_size=1, max_size=3).map("".join),
@@ -325,6 +326,15 @@ def _sections(draw, ctx):
             lines.append([bad, "X", None])
             if draw(st.integers(0, 5)) == 0:      # the same non-member twice in a row: two warnings
                 lines.append([bad, "X", None])
+    # a line is decoded for what it says, wherever it stands: in a quarter of the sections the S lines
+    # (and, separately, the E lines) change places among themselves, so they are no longer in tick order
+    for kind in ("S", "E"):
+        slots = [k for k, x in enumerate(lines) if x[1] == kind]
+        if len(slots) >= 2 and draw(st.integers(0, 3)) == 0:
+            perm = draw(st.permutations(slots))
+            moved = [lines[k] for k in perm]
+            for k, x in zip(slots, moved):
+                lines[k] = x
     from cpverif import spec as S_
     return {"lines": lines, "header": draw(st.sampled_from(S_.HEADER_LIST))}
 
